@@ -126,6 +126,23 @@ func (u *Unit) verifyFunc() {
 		u.errorf("function %s has no body", fi.Key)
 		return
 	}
+	// static loop ordinals: source order
+	u.loopOrdOf = map[ast.Node]int{}
+	nl := 0
+	ast.Inspect(fi.Decl.Body, func(n ast.Node) bool {
+		switch l := n.(type) {
+		case *ast.ForStmt:
+			nl++
+			u.loopOrdOf[l.Body] = nl
+		case *ast.RangeStmt:
+			nl++
+			u.loopOrdOf[l] = nl
+		case *ast.FuncLit:
+			return false
+		}
+		return true
+	})
+	u.nLoops = nl
 	falls := u.execBlock(st, fi.Decl.Body.List)
 	for _, f := range falls {
 		var rets []Value
@@ -150,7 +167,7 @@ func (u *Unit) verifyFunc() {
 	}
 	// loops declared in the contract but absent from the code
 	for ord := range ct.Loops {
-		if !u.loopsSeen[ord] {
+		if ord > u.nLoops {
 			u.unbound = append(u.unbound, fmt.Sprintf("contract of %s declares loop %d which the function does not have", fi.Key, ord))
 		}
 	}
@@ -322,10 +339,8 @@ func (u *Unit) kernelFor(ord int) *Kernel {
 	if k, ok := u.kernels[ord]; ok {
 		return k
 	}
-	if ord == 0 && len(u.kernels) == 1 {
-		for _, k := range u.kernels {
-			return k
-		}
+	if ord == 0 {
+		return nil
 	}
 	// declared but not yet extracted: create a placeholder (uninterpreted)
 	if lc, ok := u.ct.Loops[ord]; ok && lc.Kernel {
